@@ -339,3 +339,235 @@ def range_reader(ctx, rule):
     ok = cl is not None and any(q.shape(cl.expr_of_rvalue(s["rv"])).startswith("Deref::deref(") or "BitRef" in cl.locals[1]["ty"] or True
                                 for bi, si, s, it2 in cl.locations() if not it2 and s["k"] == "assign" and s["place"]["l"] == 0)
     ctx.check(ok, rule, fn, "bit-deref", "the bit reference is dereferenced to a bool")
+
+
+# ------------------------------------------------------------------------------------------------
+# C02 / C01 decoder half
+V3_FIELDS = ["dst_col", "src_id", "src_line", "src_col", "name_id"]
+
+
+def accumulators(ctx, rule):
+    """C02.R1 / C01.R3+R4 decoder half: field k of a segment updates accumulator k, which feeds
+    the RawToken field of the k-th meaning; only the generated-column accumulator is reset,
+    once per line."""
+    body = ctx.body(DEC)
+    fn = body.path
+    roles = dec_roles(body)
+    aggs = token_aggs(body)
+    if not ctx.check(len(aggs) == 1, rule, fn, "literal", "decode_regular builds tokens at one place"):
+        return
+    lb, ls, agg = aggs[0]
+    acc = {}
+    for k, f in enumerate(V3_FIELDS):
+        l = q.root_local(agg.field(f))
+        if l is None:
+            ctx.bad(rule, fn, "acc:%s" % f, "RawToken.%s is fed from a running variable" % f)
+            continue
+        # follow one copy (src = src_id)
+        ds = q.def_shapes(body, l, roles)
+        copies = [e.unname() for sh, site, e in ds if isinstance(e.unname(), Var)]
+        if copies and f in ("src_id", "name_id"):
+            l = copies[0].local
+        acc[f] = l
+    if not ctx.check(len(set(acc.values())) == 5, rule, fn, "five-accumulators", "five distinct running variables feed the five token fields", detail=str(acc)):
+        return
+    head_outer = [bi for bi, t in q.calls_to(body, "Iterator::next") if "Zip<" in q.shape(q.arg_expr(body, t, 0))]
+    head_inner = [bi for bi, t in q.calls_to(body, "Iterator::next") if q.shape(q.arg_expr(body, t, 0)) == "var:Enumerate<Split<char>>"]
+    if not ctx.check(len(head_outer) == 1 and len(head_inner) == 1, rule, fn, "loops", "the line loop and the segment loop are recognisable"):
+        return
+    ho, hi = head_outer[0], head_inner[0]
+
+    loops = dict(body.loops())
+
+    def in_loop(bb, head):
+        # natural loop of the header that follows the iterator's next() call
+        for h, blocks in loops.items():
+            if head in blocks and h in blocks and (h == head or body.dominates(h, head)):
+                # the innermost loop containing `head`
+                cand = [(len(bl), hh) for hh, bl in loops.items() if head in bl]
+                inner = min(cand)[1]
+                return bb in loops[inner]
+        return False
+
+    reset_in_loop = set()
+    for k, f in enumerate(V3_FIELDS):
+        l = acc[f]
+        r = dict(roles)
+        r[l] = "ACC"
+        upd = ["cast<u32>(Add(from<i64>(ACC),nums[%d]))" % k, "cast<u32>(Add(nums[%d],from<i64>(ACC)))" % k]
+        n_upd = 0
+        for sh, site, e in q.def_shapes(body, l, r):
+            if sh == "0":
+                if in_loop(site[0], ho):
+                    reset_in_loop.add(f)
+                    ctx.check(not in_loop(site[0], hi), rule, fn, "reset:%s:per-line" % f, "the reset happens once per line, not per segment", ctx.site(body, *site))
+                continue
+            ok = sh in upd
+            if not ok:
+                # checked form: narrowing of a named sum
+                x = e.unname()
+                if isinstance(x, Cast) and x.to_ty == "u32":
+                    inner = q.shape(x.x, r)
+                    ok = inner in ("Add(from<i64>(ACC),nums[%d])" % k, "Add(nums[%d],from<i64>(ACC))" % k)
+            n_upd += 1
+            ctx.check(ok, rule, fn, "update:%s" % f, "the %s state accumulates field %d of the segment (previous value + nums[%d])" % (f, k, k), ctx.site(body, *site), detail=sh)
+            ctx.check(in_loop(site[0], hi), rule, fn, "update:%s:per-segment" % f, "the accumulation happens once per segment", ctx.site(body, *site))
+        ctx.check(n_upd == 1, rule, fn, "update:%s:one" % f, "%s has exactly one accumulating update" % f)
+    ctx.check(reset_in_loop == {"dst_col"}, rule, fn, "reset-set", "inside the loops exactly the generated-column state is reset (the other four run across the whole string)", detail=str(sorted(reset_in_loop)))
+    # tombstones for 1-field segments: src/name feeding locals default to !0 per segment
+    for f in ("src_id", "name_id"):
+        l = q.root_local(agg.field(f))
+        shapes = [(sh, site) for sh, site, _ in q.def_shapes(body, l, roles)]
+        tomb = [site for sh, site in shapes if sh in ("Not(0)", "4294967295")]
+        ctx.check(bool(tomb) and all(in_loop(s[0], hi) for s in tomb), rule, fn, "tombstone:%s" % f, "%s is reset to !0 for every segment (1-field segments carry no source / name)" % f)
+
+
+def dispatch(ctx, rule):
+    """C02.R3: kind dispatch in decode_common over the two presence tests."""
+    import absint
+    b = ctx.body("decoder::decode_common")
+    fn = b.path
+    P1, P2 = "Option::is_some(arg1.sections)", "Option::is_some(arg1.x_facebook_sources)"
+    tgt = {}
+    for nm in ("decoder::decode_index", "hermes::decode_hermes", "decoder::decode_regular"):
+        cs = q.calls_to(b, nm)
+        if not ctx.check(len(cs) == 1, rule, fn, "call:%s" % q.nice(nm), "decode_common calls %s at one place" % q.nice(nm)):
+            return
+        tgt[nm] = cs[0][0]
+    want = {(1, 0): "decoder::decode_index", (1, 1): "decoder::decode_index", (0, 1): "hermes::decode_hermes", (0, 0): "decoder::decode_regular"}
+    for (s, x), w in sorted(want.items()):
+        r = absint.reach(b, 0, {P1: s, P2: x})
+        hit = sorted(nm for nm, bb in tgt.items() if bb in r)
+        ctx.check(hit == [w], rule, fn, "dispatch:sections=%d,x_facebook_sources=%d" % (s, x),
+                  "with sections %s and x_facebook_sources %s the document is decoded by %s only" % ("present" if s else "absent", "present" if x else "absent", q.nice(w)), detail=str(hit))
+    lits = sorted(q.shape(b.expr_of_rvalue(s["rv"])) for bi, si, s, it in b.locations() if not it and s["k"] == "assign" and s["rv"]["k"] == "agg" and s["rv"].get("adt") == "types::DecodedMap")
+    ctx.check(lits == ["DecodedMap::Hermes{0:try(hermes::decode_hermes(arg1))}", "DecodedMap::Index{0:try(decoder::decode_index(arg1))}", "DecodedMap::Regular{0:try(decoder::decode_regular(arg1))}"], rule, fn, "variants",
+              "each decoder's result is wrapped in the variant of its kind", detail=str(lits))
+
+
+def handover(ctx, rule):
+    """C01.R2 / C02.R4 / C02.R7: every decoded field reaches the map."""
+    b = ctx.body(DEC)
+    fn = b.path
+    news = [(bi, b.expr_of_call(t)) for bi, t in q.calls_to(b, "types::SourceMap::new")]
+    if not ctx.check(len(news) == 1, rule, fn, "new", "decode_regular builds the map with one SourceMap::new"):
+        return
+    nb, call = news[0]
+    a = [q.shape(x) for x in call.args]
+    ctx.check(a[0] == "Option::map(arg1.file,closure:decode_regular::{closure#2})", rule, fn, "new#0:file", "file comes from the document's file", detail=a[0])
+    aggs = token_aggs(b)
+    tok_vec = None
+    for bi, t in q.calls_to(b, "Vec::<T, A>::push"):
+        if q.shape(q.arg_expr(b, t, 1)).startswith("RawToken{"):
+            tok_vec = q.root_local(q.arg_expr(b, t, 0))
+    ctx.check(tok_vec is not None and q.root_local(call.args[1]) == tok_vec, rule, fn, "new#1:tokens", "the token vector passed is the one the segments were pushed to")
+    ctx.check(a[2] == "Iterator::collect(Iterator::map(IntoIterator::into_iter(Option::unwrap_or_default(arg1.names)),closure:decode_regular::{closure#1}))", rule, fn, "new#2:names", "names come from the document's names", detail=a[2])
+    ctx.check(a[3] == "Iterator::collect(Iterator::map(Iterator::map(IntoIterator::into_iter(Option::unwrap_or_default(arg1.sources)),fn:Option::unwrap_or_default),fn:Into::into))", rule, fn, "new#3:sources",
+              "sources come from the document's sources, null entries read as empty names", detail=a[3])
+    ctx.check(a[4] == "Option::map(arg1.sources_content,closure:decode_regular::{closure#3})", rule, fn, "new#4:contents", "contents come from sourcesContent", detail=a[4])
+    sm = q.root_local(b.expr_of_operand({"k": "copy", "place": b.blocks[nb]["term"]["dest"]}))
+    roles = {sm: "sm"}
+    oks = __import__("rules.common", fromlist=["x"]).result_blocks(b, "Ok")
+    for nm, want in (("set_source_root", "SourceMap::set_source_root(sm,arg1.source_root)"), ("set_debug_id", "SourceMap::set_debug_id(sm,Option::or(arg1.debug_id,arg1._debug_id_new))")):
+        cs = [(bi, q.shape(b.expr_of_call(t), roles)) for bi, t in q.calls_to(b, "types::SourceMap::" + nm)]
+        ok = len(cs) == 1 and cs[0][1] == want and bool(oks) and all(b.dominates(cs[0][0], o) for o in oks)
+        ctx.check(ok, rule, fn, nm, "%s is applied before every Ok return%s" % (want, " ('debug_id' wins over 'debugId')" if nm == "set_debug_id" else ""), detail=str(cs))
+    ig = [(bi, q.shape(b.expr_of_call(t), roles)) for bi, t in q.calls_to(b, "types::SourceMap::add_to_ignore_list")]
+    it = [sh for l in sorted(b.var_names) for sh, _, _ in q.def_shapes(b, l, roles) if sh == "IntoIterator::into_iter(some(arg1.ignore_list))"]
+    ctx.check(len(ig) == 1 and ig[0][1] == "SourceMap::add_to_ignore_list(sm,some(Iterator::next(var:IntoIter<u32>)))" and len(it) == 1, rule, fn, "ignore_list", "every ignoreList entry is applied", detail=str(ig))
+    okv = [q.shape(b.expr_of_rvalue(s["rv"]), roles) for bi, si, s, it2 in b.locations() if not it2 and s["k"] == "assign" and s["place"]["l"] == 0 and s["rv"]["k"] == "agg" and s["rv"].get("variant") == "Ok"]
+    ctx.check(okv == ["Result::Ok{0:sm}"], rule, fn, "returns-map", "that map is returned", detail=str(okv))
+    # lenient names (C02.R7)
+    c1 = ctx.facts.body("decoder::decode_regular::{closure#1}", required=False)
+    if ctx.check(c1 is not None, rule, fn, "names-closure", "the names conversion closure exists"):
+        sw = [t for bi, t in [(i, c1.blocks[i]["term"]) for i in range(len(c1.blocks)) if not c1.blocks[i]["cleanup"]] if t["k"] == "switch" and q.shape(c1.expr_of_operand(t["discr"])) == "discr(arg2)"]
+        adt = None
+        vals = sorted(v for v, _ in sw[0]["arms"]) if sw else []
+        # serde_json::Value: Null=0 Bool=1 Number=2 String=3 Array=4 Object=5
+        ctx.check(vals == [2, 3], rule, c1.path, "arms:number,string", "numbers and strings are converted, everything else reads as empty", detail=str(vals))
+        calls = [q.shape(c1.expr_of_call(t)) for bi, t in c1.calls()]
+        ctx.check(any(c == "ToString::to_string(number(arg2))" for c in calls), rule, c1.path, "number:to_string", "numeric names read as their decimal text", detail=str(calls)[:200])
+
+
+def field_coverage(ctx, rule):
+    """C01.R1: the raw fields read on each decode path vs the fields written non-None by the
+    corresponding writer."""
+    from rules import encrules
+    f = ctx.facts
+
+    def reads(path, adt="jsontypes::RawSourceMap"):
+        b = ctx.body(path)
+        out = set()
+        for bi, si, s, is_term in b.locations():
+            ops = []
+            if is_term and s["k"] == "call":
+                ops = s["args"]
+            elif not is_term and s["k"] == "assign":
+                rv = s["rv"]
+                ops = [rv[k] for k in ("op", "l", "r", "x") if isinstance(rv.get(k), dict)] + rv.get("ops", [])
+                if rv["k"] in ("ref", "discr"):
+                    ops.append({"k": "copy", "place": rv["place"]})
+            for o in ops:
+                if o.get("k") in ("copy", "move"):
+                    for p in o["place"]["p"]:
+                        if p.get("k") == "field" and p.get("adt") == adt:
+                            out.add(p["n"])
+        return out
+
+    def written(path):
+        b = ctx.body(path)
+        agg = encrules.raw_aggregate(b)
+        out = set()
+        if agg:
+            for fld, op in zip(agg[2].fields, agg[2].ops):
+                if q.shape(op) != "Option::None{}":
+                    out.add(fld)
+        return out
+
+    observables = {"file", "sources", "source_root", "sources_content", "names", "mappings", "range_mappings", "ignore_list", "debug_id"}
+    r = reads(DEC)
+    w = written(encrules.AS_RAW["regular"])
+    ctx.check(observables <= r, rule, DEC, "reads", "the regular decoder reads every observable field", detail="missing: %s" % sorted(observables - r))
+    ctx.check(observables <= w, rule, encrules.AS_RAW["regular"], "writes", "the regular writer writes every observable field", detail="missing: %s" % sorted(observables - w))
+    extra_w = w - r - {"version"}
+    extra_r = r - w - {"_debug_id_new"}
+    ctx.check(not extra_w and not extra_r, rule, "regular", "symmetric", "apart from version (write-only) and debugId (read-only alias) reader and writer carry the same fields", detail="only written: %s; only read: %s" % (sorted(extra_w), sorted(extra_r)))
+    ri = reads("decoder::decode_index")
+    wi = written(encrules.AS_RAW["index"])
+    ctx.check({"sections", "file"} <= ri and {"sections", "file"} <= wi, rule, "index", "sections+file", "index maps carry sections and file both ways", detail="read %s written %s" % (sorted(ri), sorted(wi)))
+    rs = reads("decoder::decode_index", "jsontypes::RawSection") | reads("decoder::decode_index", "jsontypes::RawSectionOffset")
+    ctx.check({"offset", "url", "map", "line", "column"} <= rs, rule, "index", "section-fields", "every section field (offset.line, offset.column, url, map) is read", detail=str(sorted(rs)))
+    ctx.remark("index maps read x_facebook_offsets / x_metro_module_paths but do not re-emit them (not among the observables C01 lists)")
+    h = ctx.body("hermes::decode_hermes")
+    lit = [h.expr_of_rvalue(s["rv"]) for bi, si, s, it in h.locations() if not it and s["k"] == "assign" and s["rv"]["k"] == "agg" and s["rv"].get("adt") == "hermes::SourceMapHermes"]
+    ok = len(lit) == 1 and q.shape(lit[0].field("raw_facebook_sources")) == "Option::Some{0:try(Option::ok_or(Option::take(arg1.x_facebook_sources),Error::IncompatibleSourceMap{}))}" \
+        and q.shape(lit[0].field("sm")) == "try(decoder::decode_regular(arg1))"
+    ctx.check(ok, rule, h.path, "hermes:retains-raw", "the Hermes decoder keeps the raw x_facebook_sources verbatim next to the regular map")
+    encrules.hermes_payload(ctx, rule)
+
+
+def key_names(ctx, rule):
+    """C02.R5: JSON key names and their binding to fields (from the derived impls)."""
+    from rules import encrules
+    from rules.common import str_array_const
+    want = {
+        "jsontypes::RawSourceMap": [("version", "version"), ("file", "file"), ("sources", "sources"), ("sourceRoot", "source_root"), ("sourcesContent", "sources_content"), ("sections", "sections"),
+                                    ("names", "names"), ("rangeMappings", "range_mappings"), ("mappings", "mappings"), ("ignoreList", "ignore_list"), ("x_facebook_offsets", "x_facebook_offsets"),
+                                    ("x_metro_module_paths", "x_metro_module_paths"), ("x_facebook_sources", "x_facebook_sources"), ("debug_id", "debug_id"), ("debugId", "_debug_id_new")],
+        "jsontypes::RawSection": [("offset", "offset"), ("url", "url"), ("map", "map")],
+        "jsontypes::RawSectionOffset": [("line", "line"), ("column", "column")],
+        "jsontypes::FacebookScopeMapping": [("names", "names"), ("mappings", "mappings")],
+    }
+    for adt, pairs in want.items():
+        c = [v for k, v in ctx.facts.consts.items() if k.endswith("for %s>::deserialize::FIELDS" % adt)]
+        fields = str_array_const(c[0]) if c else None
+        ctx.check(fields == [k for k, _ in pairs], rule, adt, "deserialize:keys", "the deserialiser of %s accepts exactly the v3 keys %s" % (adt.split("::")[-1], [k for k, _ in pairs]), detail=str(fields))
+        ser = encrules._serialize_body(ctx.facts, adt)
+        if ctx.check(ser is not None, rule, adt, "serialize:derived", "%s has a derived Serialize impl" % adt):
+            keys = encrules.serde_keys(ser)
+            got = sorted((k, v["field"]) for k, v in keys.items() if v["field"])
+            ctx.check(got == sorted(pairs), rule, adt, "key->field", "each key is bound to the field of that meaning", detail=str(got))
+    mn = [v for k, v in ctx.facts.consts.items() if k.endswith("for jsontypes::MinimalRawSourceMap>::deserialize::FIELDS")]
+    fields = str_array_const(mn[0]) if mn else None
+    ctx.check(fields == ["version", "file", "sources", "sourceRoot", "sourcesContent", "sections", "names", "mappings"], rule, "jsontypes::MinimalRawSourceMap", "keys",
+              "the detection struct uses a subset of the same keys", detail=str(fields))
